@@ -14,6 +14,7 @@ from vtlmc import ref_c01 as R
 from vtlmc.refbase import DS, ID, ME
 from vtlmc.ref_c01 import ANY, ERR, INT, NUM, BOOL, STR
 
+DEFAULT_NAMES = ("int_var", "num_var", "bool_var", "string_var")
 RM_TOLERANCE = 1e-5     # stored expectations are rounded to 6 decimals
 RM_EXCLUDED = {27: "multi-measure instr: the repository's own test expects an error", 31: "multi-measure length: idem"}
 
@@ -195,6 +196,12 @@ def verdict(dv, out, resname):
             devs.append(("wrong-value", None, ("x", cv(val), [a for a in dv if a is not ERR])))
         return devs
     got = harness.dataset_rows(res) or []
+    if len(dv.meas) == 1 and dv.meas[0] not in ("bool_var", "int_var") and got:
+        # a mono-measure operator that changes the type of the measure may rename it to the default variable of the
+        # new type (User Manual); the value is what C01 is about
+        other = [c for c in got[0] if c not in dv.ids]
+        if len(other) == 1 and other[0] in DEFAULT_NAMES and other[0] != dv.meas[0]:
+            got = [dict([(k, v) if k != other[0] else (dv.meas[0], v) for k, v in r.items()]) for r in got]
     for d in diff_dataset(dv, got):
         if d[0] == "wrong-value":
             c, g, _ = d[2]
@@ -365,10 +372,10 @@ def report(rec, level, e, dss, scalars, devs, case_col=None, shape=None):
                 rd, devs = rd2, d2
     e2, devs2 = minimise(e, rd, scalars, real(devs))
     dev2 = first_dev(devs2)
+    opn = top_operator(e2)
     if independent:
-        cls, opn = "any-input", (e2[2][0][1][1] if e2[0] == "calc" else e2[1])
+        cls = "any-input"
     else:
-        opn = top_operator(e2)
         key_by_name = {}
         if dev2[1] is not None:
             dv = R.eval_ds(e2, {"datasets": {d.name: d for d in rd}, "scalars": {n: v for n, (_, v) in (scalars or {}).items()}})
@@ -895,6 +902,8 @@ def unpacked_shapes(lt, rt):
 
 def job_unpacked(rec, op, lt, rt, seed):
     for label, d1, d2 in unpacked_shapes(lt, rt):
+        if op == "nvl" and label.startswith("extra-identifier"):
+            continue        # whether nvl(ds, ds) admits different identifier sets is not stated by the manual
         e = dsnode(op, [("ds", "DS_1"), ("ds", "DS_2")])
         submit_one(rec, e, [d1, d2], None, "dataset", "ds*ds:" + label, op, (op, "dataset", "ds*ds:%s,%s" % (lt, rt), label))
 
@@ -1304,6 +1313,9 @@ def work_batch(batch, rec):
         seed = it[-1]
         work(it, rec)
     flush(rec, seed)
+    if os.environ.get("C01_PROGRESS"):
+        with open(os.environ["C01_PROGRESS"], "a") as f:
+            f.write("%d items, %d runs, %d violations\n" % (len(batch[1]), rec.counters.get("engine_runs", 0), len(rec.violations)))
 
 
 class Check:
@@ -1356,6 +1368,11 @@ class Check:
         "not modelled; instr with start > 1: position from the beginning or from start, both accepted; overlapping occurrences: both counts",
         "comparison / membership / isnull / length / instr on datasets only mono-measure (bool_var / int_var); dataset operands must have equally "
         "named measures and the identifiers of one must contain the other's; attributes are not compared",
+        "an error inside an operand while another operand of a null-propagating operator is null: null or the error, both accepted (no "
+        "evaluation order in the manual)",
+        "a mono-measure dataset operator that changes the measure's type (ceil, floor, round/trunc without digits on Number ...) may keep the "
+        "measure name or use the default name of the new type (int_var, num_var, string_var, bool_var); comparison / membership / isnull must "
+        "give bool_var and length / instr int_var; nvl only with operands of one type, nvl(ds, ds) only with equal identifiers",
         "a raw (non-VTL) exception on a row the reference does not model is counted (raw_errors_at_unmodelled_points) but is C32's business, "
         "not a C01 violation",
     ]
@@ -1377,6 +1394,10 @@ class Check:
             items = items[int(a):int(b)]
         items = [tuple(it) + (seed,) for it in harness.seeded_order(items, seed)]
         harness.pmap(work_batch, batches(items, 8), rec)
+        if os.environ.get("C01_DUMP"):
+            with open(os.environ["C01_DUMP"], "w", encoding="utf-8") as f:
+                for v in rec.violations:
+                    f.write("%s :: %s\n" % (v["key"], v["what"][:500].replace("\n", " ")))
         aggregate(rec)
         # non-vacuity: every operator produced a non-null value at component level (depth 1) and was executed at every level
         if not only and not lim:
